@@ -51,7 +51,9 @@ CHECKS.update({
         text=("Every schedule with <= d deviations (d=2 quick, 2-3 thorough) of 2-3 concurrent reader tasks on the real engine for fan-in "
               "programs across the 32-element backward-edge tier (32/33/34 callers), diamonds with concurrent and unordered reads, firewall + "
               "projections, projection diamonds and firewall chains, fresh and after an edit (repair, transitive-firewall repair and backward "
-              "projection run concurrently); then an edit and a sequential re-query of every node. Oracles per execution: values == from "
+              "projection run concurrently); fan-in of 1024-1030 recorded callers + 2-3 concurrent new ones on the engine over the real caches "
+              "(key-to-set map at / above its 1024-element threshold: entry rebuilt from the store, spilled scan, resident too-large entry, "
+              "with physical commits held so that the new backward edges exist only in the staging area while dirtiness propagates); then an edit and a sequential re-query of every node. Oracles per execution: values == from "
               "scratch, no overlapping activations of a key, <= 1 activation per key and epoch, no deadlock/livelock, post-edit values == from "
               "scratch (lost-invalidation detector)."),
         design_ref="DESIGN.md 4/C02",
